@@ -73,14 +73,59 @@ func runC04(c *core.Ctx) {
 			key := core.ExprKey(x)
 			name := fmt.Sprintf("%s/%s %s", fname(fn), kind, exprOf(in))
 			lenKey := "len(" + key + ")"
-			guarded := false
-			for _, f := range core.FactsAt(in.Block()) {
-				if f.Mentions(lenKey) {
-					guarded = true
+			facts := core.FactsAt(in.Block())
+			// idx < len(x) (strict) or idx <= len(x) established by a dominating branch
+			bounded := func(idx ssa.Value, strict bool) bool {
+				if idx == nil {
+					return true
 				}
+				if n, isC := core.ConstInt(idx); isC {
+					need := n
+					if strict {
+						need = n + 1
+					}
+					if need <= 0 {
+						return true
+					}
+					for _, f := range facts {
+						if lb, ok := f.LowerBound(lenKey); ok && lb >= need {
+							return true
+						}
+					}
+					return false
+				}
+				ik := core.ExprKey(idx)
+				// len(x) - k: within bounds as soon as len(x) >= k
+				if bo, isB := idx.(*ssa.BinOp); isB && bo.Op == token.SUB && core.ExprKey(bo.X) == lenKey {
+					if k, isC := core.ConstInt(bo.Y); isC && k >= 0 && (k >= 1 || !strict) {
+						for _, f := range facts {
+							if lb, ok := f.LowerBound(lenKey); ok && lb >= k {
+								return true
+							}
+						}
+					}
+				}
+				for _, f := range facts {
+					switch {
+					case f.Op == "<" && f.A == ik && f.B == lenKey:
+						return true
+					case !strict && f.Op == "<=" && f.A == ik && f.B == lenKey:
+						return true
+					case !strict && f.Op == "==" && (f.A == ik && f.B == lenKey || f.B == ik && f.A == lenKey):
+						return true
+					}
+				}
+				return false
+			}
+			guarded := false
+			switch t := in.(type) {
+			case *ssa.IndexAddr:
+				guarded = bounded(t.Index, true)
+			case *ssa.Slice:
+				guarded = bounded(t.Low, false) && bounded(t.High, false)
 			}
 			if guarded {
-				c.Pass("C04/index-guarded", name, in.Pos(), "dominated by a comparison on "+lenKey)
+				c.Pass("C04/index-guarded", name, in.Pos(), "the index/bounds are dominated by a comparison that keeps them within "+lenKey)
 				return
 			}
 			if strings.HasSuffix(key, "recv.EncodedChildren") && fname(fn) == "branchNode.getNextHashAndKey" {
@@ -88,7 +133,7 @@ func runC04(c *core.Ctx) {
 				c.Check(ok, "C04/index-guarded", name, in.Pos(), "exception verified: "+why, "exception could not be re-verified: "+why)
 				return
 			}
-			c.Fail("C04/index-guarded", name, in.Pos(), "no dominating comparison on "+lenKey+": an attacker-chosen key/proof can make this panic")
+			c.Fail("C04/index-guarded", name, in.Pos(), "no dominating comparison keeps the index/bounds within "+lenKey+": an attacker-chosen key/proof can make this panic")
 		})
 	}
 	c.Floor("C04/index-guarded", 5)
